@@ -24,6 +24,9 @@ type Case struct {
 	Mode   int      `json:"mode"`   // how the partial progress arose: 0 statement k+1 failed; 1 process died before statement k+1; 2 statement 1 failed, re-run, died before statement k+1
 	Edit   string   `json:"edit"`
 	New    []string `json:"new"` // statement list after the edit
+	// Reuse: the second run is made by the SAME Executor over the SAME directory object, edited in
+	// place (a long-lived process); otherwise by a fresh Executor over a fresh directory (the CLI).
+	Reuse bool `json:"reuse,omitempty"`
 }
 
 var errInjected = errors.New("verif: injected failure")
@@ -173,6 +176,22 @@ func eval(c Case) (problems []string, key string) {
 	if err != nil {
 		return []string{"harness: " + err.Error()}, ""
 	}
+	if c.Reuse {
+		// edit the directory object the executor already holds.
+		for n, body := range files(c, c.New, 0) {
+			if err := dir.WriteFile(n, []byte(body)); err != nil {
+				return []string{"harness: " + err.Error()}, ""
+			}
+		}
+		sum, err := dir.Checksum()
+		if err == nil {
+			err = migrate.WriteSumFile(dir, sum)
+		}
+		if err != nil {
+			return []string{"harness: " + err.Error()}, ""
+		}
+		dir2 = dir
+	}
 	failAt = "<none>"
 	execs = nil
 	prefixSame := len(c.New) >= c.K && reflect.DeepEqual(c.New[:c.K], oldS[:c.K])
@@ -187,10 +206,12 @@ func eval(c Case) (problems []string, key string) {
 				}
 			}
 		}()
-		ex2, err := migrate.NewExecutor(drv, dir2, store)
-		if err != nil {
-			rerr = err
-			return
+		ex2 := ex
+		if !c.Reuse {
+			if ex2, err = migrate.NewExecutor(drv, dir2, store); err != nil {
+				rerr = err
+				return
+			}
 		}
 		rerr = ex2.ExecuteN(ctx, 0)
 	}()
@@ -282,14 +303,17 @@ func cases(tier string) []Case {
 					gen := 0
 					first := singleEdits(old(n), &gen)
 					for _, e := range first {
-						cs = append(cs, Case{n, k, layout, mode, e.name, e.out})
+						cs = append(cs, Case{N: n, K: k, Layout: layout, Mode: mode, Edit: e.name, New: e.out})
+						if mode == 0 {
+							cs = append(cs, Case{N: n, K: k, Layout: layout, Mode: mode, Edit: e.name, New: e.out, Reuse: true})
+						}
 						if tier == "thorough" && n <= 4 {
 							for _, e2 := range singleEdits(e.out, &gen) {
-								cs = append(cs, Case{n, k, layout, mode, e.name + "+" + e2.name, e2.out})
+								cs = append(cs, Case{N: n, K: k, Layout: layout, Mode: mode, Edit: e.name + "+" + e2.name, New: e2.out})
 							}
 						}
 					}
-					cs = append(cs, Case{n, k, layout, mode, "none", old(n)})
+					cs = append(cs, Case{N: n, K: k, Layout: layout, Mode: mode, Edit: "none", New: old(n)})
 				}
 			}
 		}
@@ -298,7 +322,7 @@ func cases(tier string) []Case {
 }
 
 func Run(r *report.Run) {
-	r.Rule = "files of n<=5 distinct statements x progress k in 0..n-1 (0: the first statement failed) x origin of the partial revision {statement k+1 failed; process died before statement k+1 (no error recorded); statement 1 failed, re-run, then died before statement k+1} (revision always produced by real runs) x layout {only file, middle of 3 files} x every single edit (change/insert/delete/swap at every index, truncate to every length; thorough: every pair of edits for n<=4), re-hashed, then ExecuteN on the real Executor; plus a CLI slice on a real SQLite file: n in 2..4 x k x {no / `migrate set` on the partially applied version} x edit {none, repair, tail, prefix, truncate, insert at front} with the partial revision made by the real `migrate apply --tx-mode none`: same rule, read from exit status, output and a journal table, and no panic; non-trivial = case whose edit changes the statement list; distinct = (n,k,layout,new list)"
+	r.Rule = "files of n<=5 distinct statements x progress k in 0..n-1 (0: the first statement failed) x origin of the partial revision {statement k+1 failed; process died before statement k+1 (no error recorded); statement 1 failed, re-run, then died before statement k+1} (revision always produced by real runs) x layout {only file, middle of 3 files} x every single edit (change/insert/delete/swap at every index, truncate to every length; thorough: every pair of edits for n<=4), re-hashed, then ExecuteN on the real Executor (a fresh one over a fresh directory, and - for failed-statement progress - the same Executor over the same directory object edited in place); plus a CLI slice on a real SQLite file: n in 2..4 x k x {no / `migrate set` on the partially applied version} x edit {none, repair, tail, prefix, truncate, insert at front} with the partial revision made by the real `migrate apply --tx-mode none`: same rule, read from exit status, output and a journal table, and no panic; non-trivial = case whose edit changes the statement list; distinct = (n,k,layout,new list)"
 	r.Assumptions = []string{
 		"'history untouched' compares Applied, Total, PartialHashes, Error, ErrorStmt, Hash, Type; ExecutedAt/ExecutionTime/OperatorVersion are rewritten by design on every write",
 		"statements are distinct tokens; the recording driver never fails during the second run",
@@ -312,7 +336,7 @@ func Run(r *report.Run) {
 		res[i], keys[i] = eval(cs[i])
 	})
 	for i, c := range cs {
-		r.Case(fmt.Sprintf("%d|%d|%d|%d|%v", c.N, c.K, c.Layout, c.Mode, c.New), c.Edit != "none")
+		r.Case(fmt.Sprintf("%d|%d|%d|%d|%v|%v", c.N, c.K, c.Layout, c.Mode, c.New, c.Reuse), c.Edit != "none")
 		kinds[strings.Split(c.Edit, "@")[0]]++
 		o := old(c.N)
 		if len(c.New) >= c.K && reflect.DeepEqual(c.New[:c.K], o[:c.K]) {
